@@ -84,7 +84,7 @@ def budgets_for(sp, quick):
     bs = list(range(1, K + 1))
     if full_ok(sp):
         bs += [13, 24] if quick else [11, 13, 17, 24, 40]
-    return bs
+    return sorted(set(bs))
 
 
 def fix_limits(sp, mi):
